@@ -99,6 +99,8 @@ def check(an, rep, tier):
             for d in ds:
                 run = an.run(q, vi, d)
                 _check_run(rep, fn, run)
+    from .. import rules_api as _RA
+    _RA.check_memoised(prog, rep, modules=None)
     rep.floor('A-fn', 90, 'public functions analysed')
     rep.floor('A-mut', 60, 'write sites classified')
     rep.floor('A-ret', 90, 'functions whose returns were classified')
